@@ -20,6 +20,8 @@ type Thread struct {
 	exited  bool
 	enabled func() bool // nil = enabled
 	daemon  bool        // environment thread (timer): never counts as a blocked participant
+	panicVal Value         // value of the Go panic being raised (explicit panics)
+	panicSt  *goPanicState // set while deferred calls run during a panic
 }
 
 type mutexState struct {
